@@ -1020,7 +1020,7 @@ add('c05-repair-fallback-broadcasts', 'C05', 'repair', [(F, """                i
                         res[idx] = safe_eval(*(a[idx] for a in arrs))
                     res = res.view(otype)
                 else:""")],
-    clears='formulas/functions/__init__.py::wrap_ufunc::hand-rolled evaluation path [len(args) >= 32 and max_shape == 1]')
+    clears='formulas/functions/__init__.py::wrap_ufunc::hand-rolled evaluation path through args2vals')
 add('c05-benign-vectorize-variable', 'C05', 'benign', [(F, """                else:
                     res = np.vectorize(safe_eval, **kw)(*args)""", """                else:
                     lifted = np.vectorize(safe_eval, **kw)
